@@ -61,8 +61,12 @@ FAMILIES = {
         ("mixsim", "mix", mix_consts(3, 4, [0, 1, 2, 3], [0, 1, 2, 3], 3), 500, 300),
     ],
     "thorough": [
-        ("exh2", "hmm", hmm_consts(1, 2, 1, 4, 1, [0, 1], 0, [0, 1, 3], "canon", "all", "few"), None, 3000),
-        ("exh2w", "hmm", hmm_consts(2, 2, 1, 3, 1, [0, 1, 2], 0, [1, 3], "canon", "single", "few"), None, 3000),
+        # all zero patterns, all canonical maps, all restrictions, every sequence of length 1..4, three query pairs
+        ("exh2", "hmm", hmm_consts(1, 2, 1, 4, 1, [0, 1], 0, [1, 3], "canon", "all", "few"), None, 3000),
+        # the same with zero emission weights (zero-likelihood sequences, zero marginals)
+        ("exh2z", "hmm", hmm_consts(2, 2, 1, 3, 1, [0, 1], 0, [0, 1, 3], "canon", "all", "one"), None, 3000),
+        # every 2-state model with weights 0..2 (unequal non-zero weights), start/final = none or one state, length 3
+        ("exh2w", "hmm", hmm_consts(2, 2, 3, 3, 1, [0, 1, 2], 0, [1, 3], "id", "single", "one"), None, 3000),
         ("sim3", "hmm", hmm_consts(2, 3, 1, 4, 2, [0, 1, 2], 0, [0, 1, 2, 3], "all", "all", "all"), 30000, 3000),
         ("sim3sym", "hmm", hmm_consts(2, 3, 2, 4, 2, [0, 1, 2], 0, [0, 1, 2, 3], "all", "all", "all", nsym=3), 5000, 3000),
         # spot checks beyond the exhaustive bounds: 4 states, length 5..6 (4096 paths), rows are compositions of 4
@@ -257,3 +261,32 @@ def replay(ctx, path):
     ctx.transitions = max(ctx.transitions, 1)
     ctx.traces = max(ctx.traces, 1)
     return ctx.finish(rule="replay of one recorded violation", evaluations=1, distinct_nontrivial=1)
+
+
+MANIFEST = {
+    "engine": "hmm",
+    "spec": "spec/HMM.tla",
+    "engine_text": "HMMCore.tla (contract: explicit enumeration of all hidden paths with exact integer/rational arithmetic; "
+                   "mechanism: forward/backward, restricted forward pass, Viterbi with back-pointers, transcribed from "
+                   "statistics/generic/hmm*.go), HMM.tla / Mixture.tla (case generation, mechanism = contract invariant), "
+                   "HMMTrace.tla (trace validation); Go driver harness/cmd/hmm",
+    "technique": "TLA+ contract + mechanism model checked by TLC on every generated case (exhaustive families by breadth-first "
+                 "search, larger spaces by simulation); every case is printed with the values the contract demands and replayed "
+                 "on the real library; recorded library calls are validated by a TLC trace specification",
+    "text": "TLC builds hidden Markov models (1..3 states, 4 in spot checks; integer weights with zeros; every state-to-emission "
+            "map; emission tables over a 2- or 3-symbol alphabet; every start and final restriction; data sets of 1..2 sequences "
+            "of length 1..4, 6 in spot checks) and mixtures (1..4 components, every component subset), evaluates the definition "
+            "by enumerating all m^n hidden paths exactly, checks that the forward/backward/Viterbi mechanism equals it "
+            "(alpha*beta = path sums, marginals sum to one exactly, Viterbi path in the arg-max set), and prints likelihood, "
+            "posterior marginals, posteriors of state-set sequences, the set of maximal paths and expected transition counts. "
+            "The Go driver executes each case on generic.Hmm with Float64 and Real64 parameters (LogPdf, PosteriorMarginals, "
+            "Posterior, Viterbi, ForwardBackward), on the float64-specialised recursion through one Baum-Welch step "
+            "(likelihood, gamma, re-estimated Pi and Tr), on the vector/matrix distribution wrappers, the HMM and mixture "
+            "classifiers and the constrained/hierarchical HMM with trivial constraints, comparing in the log domain to 1e-9. "
+            "Seeded random library calls are logged as fixed-point numbers and accepted by HMMTrace.tla, which re-enumerates "
+            "the paths; corrupted logs are rejected. Bounded checking plus conformance, not a proof.",
+    "note": "Trusted: TLC, CommunityModules Json, Go's math.Log/Exp, the driver's data records. Excluded by design: models with "
+            "an all-zero (restricted) transition row or initial vector; zero-likelihood sequences only demand -Inf or an error. "
+            "Bounds are echoed in evidence (coverage.bounds).",
+    "design_ref": "DESIGN.md section 5 (C15), section 4 (HMM.tla, Mixture.tla), section 3.4",
+}
